@@ -1,6 +1,7 @@
 import UmProofs.ProtoFuel
 import UmProofs.ProtoCompactIdx
 import UmProofs.ProtoCommit
+import UmProofs.ProtoDamaged
 import UmProofs.BrokerViewPartF
 /-!
 # C17 — Control-plane messages survive their wire encodings
@@ -185,6 +186,47 @@ theorem C17_reject_bad_range_token (n : Nat) (pre : List Range) (t : Str) (ts : 
     (hb : ∀ r ∈ pre, r.s ≤ u64Max ∧ r.e ≤ u64Max) (hl : pre.length < n) (ht : parseSlotRange t = none) :
     parseRanges n (pre.map Range.toStr ++ t :: ts) = none :=
   parseRanges_bad_token n pre t ts hb hl ht
+
+/-- **a damaged range token is never skipped**: in a declared list of `n` ranges, if the token at
+position `k = pre.length < n` is not of the form `start-end` (non-numeric, no `-`, empty piece — or,
+after a deletion, whatever token slid into its place), `RangeList::parse` answers `None`, whatever
+follows -/
+theorem C17_reject_damaged_range_list (n : Nat) (pre : List Range) (t : Str) (ts : List Str) (hn : n ≤ u64Max)
+    (hb : ∀ r ∈ pre, r.s ≤ u64Max ∧ r.e ≤ u64Max) (hl : pre.length < n) (ht : parseSlotRange t = none) :
+    RangeList.parse (decimal n :: (pre.map Range.toStr ++ t :: ts)) = none :=
+  RangeList.parse_damaged n pre t ts hn hb hl ht
+
+/-- … a list that ends before the declared number of ranges is `None` too (nothing is "taken
+short") -/
+theorem C17_reject_short_range_list (n : Nat) (ts : List Str) (h : ts.length < n) : parseRanges n ts = none :=
+  parseRanges_short n ts h
+
+/-- a token without any `-` is not a range token -/
+theorem C17_no_dash_not_a_range (t : Str) (h : (45 : UInt8) ∉ t) : parseSlotRange t = none :=
+  parseSlotRange_no_dash t h
+
+/-- the same for a slot range in any of its three tag forms (untagged, MIGRATING, IMPORTING) -/
+theorem C17_reject_damaged_slot_range (hd : List Str)
+    (htag : hd = [] ∨ hd = [MIGRATING_TAG] ∨ hd = [IMPORTING_TAG])
+    (n : Nat) (pre : List Range) (t : Str) (ts : List Str) (hn : n ≤ u64Max)
+    (hb : ∀ r ∈ pre, r.s ≤ u64Max ∧ r.e ≤ u64Max) (hl : pre.length < n) (ht : parseSlotRange t = none) :
+    SlotRange.fromStrings (hd ++ decimal n :: (pre.map Range.toStr ++ t :: ts)) = none :=
+  SlotRange.fromStrings_damaged hd htag n pre t ts hn hb hl ht
+
+/-- a SETCLUSTER message with a damaged slot range in a local group resp. a peer group is rejected,
+whatever follows the damaged group -/
+theorem C17_reject_damaged_group (m : Meta) (h : WfMeta m) (a : Str) (bad : List Str)
+    (ha : isSectionWord a = false) (hbad : SlotRange.fromStrings bad = none) :
+    parse (header m ++ NodeMap.toArgs m.local ++ a :: bad) = .error .invalidArgs ∧
+    parse (header m ++ NodeMap.toArgs m.local ++ PEER_PREFIX :: (NodeMap.toArgs m.peer ++ a :: bad))
+      = .error .invalidArgs :=
+  ⟨parse_bad_local_group m h a bad ha hbad, parse_bad_peer_group m h a bad ha hbad⟩
+
+/-- a task descriptor (INFOMGR element, switch argument) with a damaged slot range is rejected -/
+theorem C17_reject_damaged_task (c v : Str) (bad : List Str) (hbad : SlotRange.fromStrings bad = none) :
+    TaskMeta.fromStrings (c :: bad) = none ∧ SwitchArg.fromStrings (v :: c :: bad) = none := by
+  have h := TaskMeta.fromStrings_bad c bad hbad
+  exact ⟨h, by simp [SwitchArg.fromStrings, h]⟩
 
 /-- a word in section position other than PEER / CONFIG is rejected -/
 theorem C17_reject_unknown_section (f : Nat) (loc peer : NodeMap) (cfg : Config) (ext : Bool) (t : Str) (ts : List Str)
@@ -381,5 +423,11 @@ example : ∃ s', Um.Broker.commitMigrationCore { Um.Broker.Store.init with glob
     (fun _ => [120]) [99] (by decide) (by decide) (by decide)
   obtain ⟨_, _, _, _, _, _, _, _, _, _, _, _, _, _, _, _, _, _, h4⟩ := h
   exact ⟨_, h4⟩
+
+/-- `c1 MIGRATING 2 0-100 200:300 233 …`: the second range token lost its `-` -/
+example : TaskMeta.fromStrings ([99, 49] :: ([MIGRATING_TAG] ++ decimal 2 :: ([(⟨0, 100⟩ : Range)].map Range.toStr ++
+    [50, 48, 48, 58, 51, 48, 48] :: exMig.intoStrings))) = none :=
+  (C17_reject_damaged_task _ [] _ (C17_reject_damaged_slot_range _ (Or.inr (Or.inl rfl)) 2 [⟨0, 100⟩] _ _ (by decide)
+    (by decide) (by decide) (C17_no_dash_not_a_range _ (by decide)))).1
 
 end Um.Proto.C17
